@@ -117,28 +117,14 @@ theorem deref_total {p : Program} {root : Nat} {tbl : Table} (h : resolve p root
   obtain ⟨t, hden, _⟩ := hng.1
   exact ⟨t, hden, deref_den inv hden ⟨rf, hr⟩ nd hng⟩
 
-/-
-  resolve_const_binding — full statement (FALSE on the model and on the code, see the witness below):
-
-    resolve p root = .ok tbl → p[i]? = some f → tbl[i]? = some (some rf) → SlotConst f s cv →
-    ∃ bs, rf.bindsAt s = some bs ∧ bs.length = cv.idents.length ∧
-      ∀ k id b, cv.idents[k]? = some id → bs[k]? = some b →
-        ((id = "true" ∨ id = "false") ∧ b = none) ∨
-        (… ∧ ∃ x, b = some x ∧ ConstCand p i id x ∧ ∀ y, ConstCand p i id y → y = x)
-
-  It fails when a definition is named like a type keyword (`enum list {…}`, `struct i32 {…}`), which
-  the grammar allows: for `typedef list<i32> T` getEnum continues with `getEnumVisited(ast, "list")`
-  and finds that definition.  The partial theorem assumes `p.saneNames` (no global name is empty or a
-  type keyword).  Dotted definition names are covered since the fix of getEnum (58e7614).
--/
-
 /-- Every identifier used as a constant value (other than `true` / `false`, which get no Extra) is
 bound to the one thing it names: its Extra is a `ConstCand` (local constant, enum.value,
 include.constant, include.enum.value, enums also through typedefs, with the include index the code
 reports) and every `ConstCand` of the identifier equals it.  Contrapositive: with no candidate or
 with two different ones, resolution fails.  Constant values are those of constants, of struct /
-union / exception fields, and of function arguments and throws. -/
-theorem resolve_const_binding_partial {p : Program} (hsane : p.saneNames = true)
+union / exception fields, and of function arguments and throws.  (Full since /repo 58e7614 + 05813e1:
+no hypothesis on definition names is left.) -/
+theorem resolve_const_binding {p : Program}
     {root : Nat} {tbl : Table} (h : resolve p root = .ok tbl)
     {i : Nat} {f : File} {rf : RFile} (hf : p[i]? = some f) (hr : tbl[i]? = some (some rf))
     {s : Slot} {cv : ConstVal} (hs : SlotConst f s cv) :
@@ -149,14 +135,11 @@ theorem resolve_const_binding_partial {p : Program} (hsane : p.saneNames = true)
           ∀ y, ConstCand p i id y → y = x) := by
   obtain ⟨inv, _⟩ := resolve_inv h
   obtain ⟨views, hv, hc, ha⟩ := inv.produced i f rf hf hr
-  exact resolveAST_binds hsane hf hv hc ha (inv.good i f rf hf hr) hs
-
-/-- the hypotheses are satisfiable -/
-example : sample.saneNames = true := by decide
+  exact resolveAST_binds hf hv hc ha (inv.good i f rf hf hr) hs
 
 /-- Regression item (defect fixed in /repo 58e7614): file 0 `a.thrift`: `struct b {}`; file 1:
 `include "a.thrift"  enum a.b { X }  typedef a.b T  const i32 c = T.X`.  The old getEnum bound `T.X`
-to the local enum literally named `a.b`; now `T.X` is an undefined value.  Dotted names are sane. -/
+to the local enum literally named `a.b`; now `T.X` is an undefined value. -/
 def dotted : Program :=
   [ { filename := [97], includes := [], typedefs := [], constants := [], enums := [],
       structs := [⟨.struct, [98], []⟩], unions := [], exceptions := [], services := [] },
@@ -165,8 +148,7 @@ def dotted : Program :=
       constants := [⟨[99], .name [105, 51, 50], .ident [84, 46, 88]⟩],
       enums := [⟨[97, 46, 98], [⟨[88], 0⟩]⟩], structs := [], unions := [], exceptions := [], services := [] } ]
 
-example : dotted.saneNames = true ∧
-    (match resolve dotted 1 with | .error .undefValue => true | _ => false) = true := by decide
+example : (match resolve dotted 1 with | .error .undefValue => true | _ => false) = true := by decide
 
 /-- Regression item (same commit): `typedef Loop1 Loop0  typedef Loop0 Loop1  const i32 k = Loop0.X`
 used to exhaust the stack in getEnum; with the visited set it is an undefined value. -/
@@ -178,8 +160,9 @@ def looped : Program :=
 
 example : (match resolve looped 0 with | .error .undefValue => true | _ => false) = true := by decide
 
-/-- Witness that the hypothesis `saneNames` cannot be dropped:
-`enum list { X }  typedef list<i32> T  const i32 c = T.X`. -/
+/-- Regression item (defect fixed in /repo 05813e1): `enum list { X }  typedef list<i32> T
+const i32 c = T.X` — getEnum used to continue with the keyword `list` as a name and bound `T.X`
+to the enum called `list`; now an undefined value. -/
 def kwlist : Program :=
   [ { filename := [109], includes := [],
       typedefs := [⟨[84], .list (.name [105, 51, 50])⟩],
@@ -187,85 +170,7 @@ def kwlist : Program :=
       enums := [⟨[108, 105, 115, 116], [⟨[88], 0⟩]⟩], structs := [], unions := [], exceptions := [],
       services := [] } ]
 
-/-- On `kwlist` the model (like the code) resolves `T` to a list and nevertheless binds `T.X` as a
-value of an enum. -/
-example : ∃ tbl rf, resolve kwlist 0 = .ok tbl ∧ tbl[0]? = some (some rf) ∧
-    rf.nodesAt (.typedef [84]) = some [⟨.list, false, none⟩, ⟨.i32, false, none⟩] ∧
-    rf.bindsAt (.const [99]) = some [some ⟨true, -1, [88], [84]⟩] := by
-  have h : (match resolve kwlist 0 with
-      | .ok tbl => (match tbl[0]? with
-          | some (some rf) =>
-            decide (rf.nodesAt (.typedef [84]) = some [⟨.list, false, none⟩, ⟨.i32, false, none⟩]) &&
-            decide (rf.bindsAt (.const [99]) = some [some ⟨true, -1, [88], [84]⟩])
-          | _ => false)
-      | .error _ => false) = true := by decide
-  cases hr : resolve kwlist 0 with
-  | error e => rw [hr] at h; simp at h
-  | ok tbl =>
-    rw [hr] at h
-    simp only at h
-    cases ht : tbl[0]? with
-    | none => rw [ht] at h; simp at h
-    | some x =>
-      cases x with
-      | none => rw [ht] at h; simp at h
-      | some rf =>
-        rw [ht] at h
-        simp only [Bool.and_eq_true, decide_eq_true_eq] at h
-        exact ⟨tbl, rf, rfl, ht, h.1, h.2⟩
-
-/-- … although, read as the property reads identifiers, `T.X` names nothing in `kwlist`. -/
-theorem kwlist_has_no_candidate : ∀ y, ¬ ConstCand kwlist 0 [84, 46, 88] y := by
-  have hlen : kwlist.length = 1 := rfl
-  have hf0 : ∀ f, kwlist[0]? = some f → f = kwlist[0] := by
-    intro f h
-    rw [List.getElem?_eq_getElem (by rw [hlen]; omega)] at h
-    exact (Option.some.inj h).symm
-  have noEnumT : ∀ e idx, ¬ EnumDen kwlist 0 [84] e idx := by
-    intro e idx h
-    generalize hb : ([84] : Bytes) = b at h
-    cases h with
-    | @enum _ f _ h1 h2 =>
-      have := hf0 f h1
-      subst this
-      generalize hc : Cat.enum = c at h2
-      cases h2 with
-      | typedef h => cases hc
-      | constant h => cases hc
-      | enum h => simp [kwlist] at h; rw [h] at hb; simp at hb
-      | @structLike s h => simp [kwlist, File.structLikes] at h
-      | service h => cases hc
-    | @tdLoc _ f td n _ _ h1 h2 h3 _ _ _ =>
-      have := hf0 f h1
-      subst this
-      simp only [kwlist, List.getElem_cons_zero, List.mem_cons, List.not_mem_nil, or_false] at h2
-      subst h2
-      cases h3
-    | @tdQual _ f td n a b' k j' c _ _ h1 h2 h3 _ _ _ _ =>
-      have := hf0 f h1
-      subst this
-      simp only [kwlist, List.getElem_cons_zero, List.mem_cons, List.not_mem_nil, or_false] at h2
-      subst h2
-      cases h3
-  intro y hy
-  cases hy with
-  | localConst _ h2 _ => simp [splitLastDot] at h2
-  | enumValue h1 h2 _ =>
-    have : splitLastDot [84, 46, 88] = some ([84], [88]) := by decide
-    rw [this] at h1
-    simp only [Option.some.injEq, Prod.mk.injEq] at h1
-    obtain ⟨rfl, rfl⟩ := h1
-    exact noEnumT _ _ h2
-  | @incConst f a v k inc g h0 _ h2 _ _ _ =>
-    have := hf0 f h0
-    subst this
-    simp [kwlist] at h2
-  | incEnumValue _ h1 h2 _ _ _ _ =>
-    have : splitLastDot [84, 46, 88] = some ([84], [88]) := by decide
-    rw [this] at h1
-    simp only [Option.some.injEq, Prod.mk.injEq] at h1
-    obtain ⟨rfl, rfl⟩ := h1
-    simp [splitLastDot] at h2
+example : (match resolve kwlist 0 with | .error .undefValue => true | _ => false) = true := by decide
 
 /-- getEnum's recursion is bounded by its visited set: whenever every typedef the views know is a
 typedef of the program (true of the views ResolveAST builds, `allViews_keys`), a call started with
